@@ -8,9 +8,11 @@ repository.  The line-level functions the Gallina model is parameterised by (`li
 instantiated, per case, by finite tables recorded from the REAL functions during that very call
 (fail closed on a missing entry), so the check is independent of Compiler/ParseLine.v.
 
-Model version: BARDIC_C11B_VARIANT = fixed (default: /repo + proposed_fixes/F11a-legacy-if-unclosed.diff +
-F11b-block-depth-limit.diff), `a` (F11a only) or `current` (the unpatched code: legacy `<<if x` /
-`<<elif x` headers leave `condition` unassigned, no nesting limit).
+Model version (Compiler/ParseBlocks.v carries the flags `fixed`, `cap`): BARDIC_C11B_VARIANT = auto (default:
+read off the tree under test), fixed (/repo + proposed_fixes/F11a-legacy-if-unclosed.diff +
+F11b-block-depth-limit.diff: what the unsuffixed names of ParseBlocks.v stand for), `a` (F11a only) or
+`current` (the unpatched code: legacy `<<if x` / `<<elif x` headers leave `condition` unassigned, no nesting
+limit).  Whatever the version, the direct oracle reports every escape with an internal error.
 """
 from __future__ import annotations
 
@@ -646,9 +648,18 @@ def run(tier: str, seed: int) -> int:
     import bardic.compiler.parsing.core as core
     install(blocks)
     rng = chk.rng
-    variant = os.environ.get("BARDIC_C11B_VARIANT", "fixed")
-    suffix = {"fixed": "fixed", "a": "a", "current": "cur"}[variant]
-    bad_fn, show_fn = f"case_bad_{suffix}", f"case_show_{suffix}"
+    # which of the three documented versions of blocks.py is under test (see the module docstring);
+    # `auto` reads it off the tree: the two candidate fixes are recognisable by their diagnostics
+    variant = os.environ.get("BARDIC_C11B_VARIANT", "auto")
+    if variant == "auto":
+        import inspect
+        has_a = "<<if statement missing >>" in inspect.getsource(blocks.extract_conditional_block)
+        has_b = hasattr(blocks, "MAX_BLOCK_DEPTH")
+    else:
+        has_a, has_b = {"fixed": (True, True), "a": (True, False), "current": (False, False)}[variant]
+    variant = {(True, True): "fixed", (True, False): "a", (False, False): "current"}.get((has_a, has_b), "F11b-without-F11a")
+    vargs = f"{coq_bool(has_a)} {'(Some max_block_depth)' if has_b else 'None'}"
+    bad_fn, show_fn = f"(case_bad_v {vargs})", f"case_show_v {vargs}"
     n_blocks, n_join, n_mis, n_repo, maxdepth = (380, 90, 30, 260, 4) if tier == "quick" else (5000, 900, 200, 4000, 5)
 
     cases = [{"kind": k, "lines": ls, "start": st, "src": "corpus", "broken": True, "feats": ["corpus"], "gen_depth": None}
